@@ -284,6 +284,64 @@ pub fn events_for_same_name() -> Vec<Value> {
     evs
 }
 
+/// State that outlives a compilation may also be process-wide and written once (a table sized by whoever asks first): then every
+/// compilation inside one process agrees with itself, and only another *history* shows it.  Each probe module is compiled alone
+/// in a fresh process and, in another fresh process, after each of the other probes; the child is this binary (`c11child`).
+const PROBES: [(&str, &str); 8] = [
+    ("bmp-open", "B ::= BMPString (FROM (\"a\"..MAX))"),
+    ("universal-open", "U ::= UniversalString (FROM (\"a\"..MAX))"),
+    ("universal-astral", "U ::= UniversalString (FROM (\"a\u{1F600}\"))"),
+    ("ia5-open", "I ::= IA5String (FROM (MIN..\"z\"))"),
+    ("printable", "P ::= PrintableString (FROM (\"A\"..\"Z\" | \"0\"..\"9\"))"),
+    ("numeric-visible", "N ::= NumericString (FROM (\"0\"..MAX))\nV ::= VisibleString (FROM (MIN..\"A\"))"),
+    ("integers", "T ::= INTEGER { low(0), high(70000) } (low..high)\nE ::= ENUMERATED { a, b(5), ..., c }\nS ::= SEQUENCE { f T DEFAULT high, g E DEFAULT b }"),
+    ("bits-oid", "Bs ::= BIT STRING { x(0), y(9) } (SIZE (10))\noid OBJECT IDENTIFIER ::= { iso standard 8571 }\nv Bs ::= { x, y }"),
+];
+
+fn probe_module(i: usize) -> String {
+    format!("Probe{i} DEFINITIONS AUTOMATIC TAGS ::= BEGIN\n{}\nEND\n", PROBES[i].1)
+}
+
+/// vharness c11child <i> [<j> ...]: compile the probes in that order in this (fresh) process, print the last outcome
+pub fn child(args: &[String]) -> i32 {
+    run::install_panic_hook();
+    let mut last = run::Outcome::default();
+    for a in args {
+        let i: usize = a.parse().unwrap_or(0);
+        last = compile(&[probe_module(i)]);
+    }
+    let mut w = last.warnings.clone();
+    w.sort();
+    println!("{}", json!({"status": last.status, "hash": h64(&last.generated), "whash": h64(&w.join("\n")), "nwarnings": w.len(), "detail": format!("{}{}", last.error, last.panic_msg)}));
+    0
+}
+
+pub fn events_for_histories() -> Vec<Value> {
+    let me = std::env::current_exe().unwrap();
+    let run_child = |order: &[usize]| -> Value {
+        let out = std::process::Command::new(&me).arg("c11child").args(order.iter().map(|i| i.to_string())).output();
+        match out {
+            Ok(o) => String::from_utf8_lossy(&o.stdout).lines().last().and_then(|l| serde_json::from_str(l).ok())
+                .unwrap_or(json!({"status": "childfail", "hash": "", "whash": "", "nwarnings": 0, "detail": String::from_utf8_lossy(&o.stderr).chars().take(300).collect::<String>()})),
+            Err(e) => json!({"status": "childfail", "hash": "", "whash": "", "nwarnings": 0, "detail": e.to_string()}),
+        }
+    };
+    let n = PROBES.len();
+    let jobs: Vec<(usize, Option<usize>)> = (0..n).flat_map(|x| std::iter::once((x, None)).chain((0..n).filter(move |y| *y != x).map(move |y| (x, Some(y))))).collect();
+    let results = util::par_chunks(&jobs, 4, util::threads().min(8), |_, chunk| {
+        chunk.iter().map(|(x, y)| {
+            let r = match y { None => run_child(&[*x]), Some(y) => run_child(&[*y, *x]) };
+            let variant = match y { None => "alone in a fresh process".to_string(), Some(y) => format!("in a fresh process after the module '{}'", PROBES[*y].0) };
+            json!({"ev": "run", "defset": format!("history probe {}", PROBES[*x].0), "variant": variant, "status": r["status"], "hash": r["hash"], "whash": r["whash"],
+                   "nwarnings": r["nwarnings"], "detail": r["detail"], "asn": probe_module(*x), "shared_names": 0, "x": x, "y": y.map(|v| v as i64).unwrap_or(-1)})
+        }).collect()
+    });
+    // the event of the probe alone first: it fixes the defset's result
+    let mut evs: Vec<Value> = results;
+    evs.sort_by_key(|e| (e["x"].as_u64().unwrap_or(0), e["y"].as_i64().unwrap_or(-1)));
+    evs
+}
+
 pub fn drive(args: &[String]) -> i32 {
     let cases = util::read_ndjson(util::arg(args, "--cases").expect("--cases"));
     let seed: u64 = std::env::var("VERIF_SEED").ok().and_then(|s| s.parse().ok()).unwrap_or(1);
@@ -303,6 +361,7 @@ pub fn drive(args: &[String]) -> i32 {
     events.extend(events_for_revisions());
     events.extend(events_for_same_name());
     events.extend(events_for_empty_modules());
+    events.extend(events_for_histories());
     util::write_ndjson(util::arg(args, "--trace").expect("--trace"), &events);
     eprintln!("c11: {} module sets, {} events", indexed.len(), events.len());
     0
